@@ -36,6 +36,14 @@ class SchemaChangeSeverity(IntEnum):
 # SchemaChange subclass.
 
 
+def _default_change_severity(old, new) -> "SchemaChangeSeverity":
+    # Removing the default value of a non null argument or input field makes it
+    # required: documents which relied on the default become invalid.
+    if new.required and not old.required:
+        return SchemaChangeSeverity.BREAKING
+    return SchemaChangeSeverity.DANGEROUS
+
+
 class SchemaChange:
     severity = NotImplemented  # type: SchemaChangeSeverity
     format_str = NotImplemented  # type: str
@@ -305,6 +313,7 @@ class DirectiveArgumentDefaultValueChange(SchemaChange):
         self.directive = directive
         self.old_argument = old_argument
         self.new_argument = new_argument
+        self.severity = _default_change_severity(old_argument, new_argument)
 
 
 class DirectiveArgumentChangedType(SchemaChange):
@@ -394,6 +403,7 @@ class FieldArgumentDefaultValueChange(SchemaChange):
         self.field = field
         self.old_argument = old_argument
         self.new_argument = new_argument
+        self.severity = _default_change_severity(old_argument, new_argument)
 
 
 class FieldArgumentChangedType(SchemaChange):
@@ -584,6 +594,7 @@ class InputFieldDefaultValueChange(SchemaChange):
         self.type = input_type
         self.old_field = old_field
         self.new_field = new_field
+        self.severity = _default_change_severity(old_field, new_field)
 
 
 class InputFieldChangedType(SchemaChange):
